@@ -8,8 +8,9 @@ import RrModel.Generated.Facts
 
   * `uuid.NewV4().String()` is a parameter (`uuid`): at most one call site is reached per call.
   * `readIP` is a closure in Go and is only *called* on some branches; the model takes its
-    result (`Res Bytes`, it can panic through `DropPort`) and looks at it on exactly those
-    branches, in statement order.
+    result (`Res Bytes`: a closure may panic; `util.RequestIP` itself no longer can, since
+    `DropPort` was repaired — finding C05-b) and looks at it on exactly those branches, in
+    statement order.
   * `secrets[0]` on an empty list is a run-time panic (`Res.panic`); a nil and an empty non-nil
     slice behave alike inside this function (the difference is made by `createProxyRequest`).
 -/
@@ -74,7 +75,8 @@ def ensureInternalHeaders (header : Header) (passHeaders : Bool) (secrets : List
 /-- `util.RequestIP(req)` (ip.go:32-58). `remoteIP` = the host part returned by
     `net.SplitHostPort(strings.TrimSpace(req.RemoteAddr))`, `none` when that call errs
     (harness-supplied: `net.SplitHostPort` is not modelled). Declared domain of `TrimSpace`:
-    ASCII. `DropPort` may panic (`[` without `]`). -/
+    ASCII. `DropPort` hands a value with `[` and no `]` on unchanged (it panicked there before
+    the fix for finding C05-b), so no branch of this function panics. -/
 def requestIP (header : Header) (remoteIP : Option Bytes) : Res Bytes :=
   let cfip := header.get b!"cf-connecting-ip"
   if cfip ≠ [] then .ok cfip
